@@ -65,6 +65,7 @@ def run(ctx):
     lines += ['rp ' + ' '.join(c07.gen_history(rng).steps) for _ in range(800 if ctx.thorough else 100)]
     # the defragmenter's size limit is behaviour too: a stream reaching the 10 MiB cap, and an over-full first fragment
     lines += ['rp ' + ' '.join(c07.oversize_history(rng, jump=True).steps), 'rp ' + ' '.join(c07.overfull_first_fragment(rng).steps)]
+    lines += common.cg_lines(ctx, None)
     lines += ['st %d %d ccs' % (s, d) for s in range(25) for d in (0, 1)]
     lines += ['cs_id %d' % i for i in range(0, 65536, 97)] + ['disp TlsVersion %d' % v for v in range(0x0300, 0x0306)]
     outs = {c: core.run_lines(exes[c], lines) for c in exes}
@@ -81,12 +82,24 @@ def run(ctx):
                 ctx.violation('configurations disagree on %s: %s' % (ln[:120], {c: r[:120] for c, r in rs.items()}), {'lines': [ln], 'results': rs}, key='cfg:' + ln.split(' ')[0])
         elif ref and not ln.startswith(('cs_', 'disp')) and common.proj_value(rs[ref]) != common.proj_value(model[k]) and 'unsupported' not in model[k]:
             ctx.cov['model_vs_impl_disagreements'] += 1
+    # pure functions have no memory: the same registry lookups as the *first* call of a fresh process (no earlier call can have
+    # warmed or poisoned anything), in every configuration, must answer what they answer in the middle of a long run
+    ids = [0, 1, 0x2f, 0x35, 0x9c, 0x1301, 0x1303, 0x5600, 0xc02f, 0xcca8, 0xffff, 0x0a0a] + [rng.randrange(65536) for _ in range(20)]
+    reg = ['cs_id %d' % i for i in ids] + ['cs_row %d' % i for i in ids[:8]] + ['keybits %d' % g for g in (0, 23, 28, 29, 65535)] + ['disp TlsVersion 771', 'disp NamedGroup 0']
+    fresh = {c: core.run_lines(exes[c], reg, chunk=1) for c in exes}
+    warm = {c: core.run_lines(exes[c], reg[::-1] + reg)[len(reg):] for c in exes}
+    for k, ln in enumerate(reg):
+        rs = {c + '/first-call': fresh[c][k] for c in exes}
+        rs.update({c + '/after-other-calls': warm[c][k] for c in exes})
+        ctx.count('statelessness', 'same' if len(set(rs.values())) == 1 else 'DIFFER')
+        if len(set(rs.values())) > 1:
+            ctx.violation('the answer to %s depends on configuration or on what was called before: %s' % (ln, rs), {'lines': [ln], 'results': rs}, key='state:' + ln.split(' ')[0])
     ctx.cov['programs'] = len(exes)
     ctx.cov['disagreements_checked'] = len(lines) * max(1, len(exes) - 1)
     ctx.sample({'line': lines[0][:160], 'results': {c: outs[c][0][:160] for c in outs}})
     ctx.sample({'line': lines[-40][:160], 'results': {c: outs[c][-40][:160] for c in outs}})
     return ctx.finish(LEVEL,
-        rule='three compiled configurations of the crate (default = std; --no-default-features = no_std + alloc; std + serialize) driven by the same harness over the assets, every independent-encoder family with corruptions, defragmenter histories (incl. a stream reaching the 10 MiB cap), state-machine and registry lookups: outputs must be identical across configurations (and are compared with the Lean model); plus: serialize without std refused by compile_error!, #![forbid(unsafe_code)] present and no unsafe token in src/ or build.rs, compile-time Send + Sync assertions for 90 public types; distinct = (op, outcome shape)',
+        rule='three compiled configurations of the crate (default = std; --no-default-features = no_std + alloc; std + serialize) driven by the same harness over the assets, every independent-encoder family with corruptions, defragmenter histories (incl. a stream reaching the 10 MiB cap), the coverage-guided corpus, state-machine and registry lookups (also as the first call of a fresh process): outputs must be identical across configurations (and are compared with the Lean model); plus: serialize without std refused by compile_error!, #![forbid(unsafe_code)] present and no unsafe token in src/ or build.rs, compile-time Send + Sync assertions for 90 public types; distinct = (op, outcome shape)',
         checker_cmd='cargo build (x3 configurations + refusal + Send/Sync crate); no Lean obligation is specific to this property',
         assumptions=['the build-status, unsafe-code and Send/Sync clauses are facts established by rustc/cargo and a token scan, not by a theorem; they are preconditions of the tie and are reported as violations of C18 when they fail',
                      'the behavioural clause is a translation validation of each compiled configuration against the one proven model'])
